@@ -211,6 +211,40 @@ def harness_recursive(ctx, case):
     return out
 
 
+def harness_environment(ctx, case):
+    """the process environment is input too: the real main() with one variable whose name or value is a single fully symbolic byte
+    (0x01..0xff, no '='): start-up must not panic whatever the byte is"""
+    import C18
+    from mirsym.vals import Agg, MapV, VecV, NONE, some, Opaque, deref_all
+    prog = ctx.prog
+    ucgrun.install_parse_override(prog)
+    c = ctx.bv('envbyte', 8)
+    ctx.assume(z3.And(c != 0, c != ord('=')))
+    name, val = (SymStr((c,)), 'v') if case['where'] == 'name' else ('AA', SymStr((c,)))
+    ctx.process_env = [('HOME', '/home/u'), (name, val)]
+    ctx.fs['/cwd/conf.ucg'] = 'let a = 1;\n'
+    ctx.cli_sub = Agg('ArgMatches', None, (MapV('HashMap').insert('INPUT', VecV(['conf.ucg'])), MapV('HashMap')))
+    ctx.cli_top = Agg('ArgMatches', None, (MapV('HashMap'), MapV('HashMap')))
+    if 'do_flags' not in prog.overrides:
+        prog.overrides['do_flags'] = lambda c_, a, callee: Opaque('clap::App')
+        prog.overrides['<App as Clone>::clone'] = lambda c_, a, callee: Opaque('clap::App')
+        prog.overrides['App::get_matches'] = lambda c_, a, callee: c_.cli_top
+        prog.overrides['ArgMatches::subcommand_matches'] = lambda c_, a, callee: some(c_.cli_sub) if deref_all(a[1]) == 'build' else NONE
+        prog.overrides['home_dir'] = prog.overrides['dirs::home_dir'] = lambda c_, a, callee: NONE
+        prog.resolve_cache.clear()
+    out = {'reached': True, 'asserts': 1, 'violations': []}
+    try:
+        ctx.call('main', [])
+        out['sample'] = {'where': case['where'], 'result': 'returns'}
+    except interp.HarnessStop as h:
+        out['sample'] = {'where': case['where'], 'exit': h.payload}
+    except interp.Panic as p:
+        b = ctx.model().eval(c, model_completion=True).as_long()
+        out['violations'].append({'key': 'C04:panic:environment:%s' % case['where'], 'what': 'panic (%s) at start-up when the %s of an environment variable is the byte 0x%02x' % (p.msg[:70], case['where'], b),
+                                  'case': {'kind': 'cli-env-bytes', 'where': case['where'], 'byte': b}})
+    return out
+
+
 NEST = {'list': ('[', ']'), 'tuple': ('{a = ', '}'), 'paren': ('(', ')'), 'call-arg': ('f(', ')'), 'select-arm': ('select ("a", 0) => {a = ', '}')}
 
 
@@ -275,7 +309,20 @@ def run(fw):
     fw.explore('nesting-cost', harness_nesting, nest, fuel=3_000_000_000)
     fw.bounds['recursive_constraints'] = '%d files with self-, mutually and structurally identical recursive constraints through FileBuilder::build (checker + VM) under a budget of 60M MIR steps (bounded execution; a proxy for termination)' % len(RECURSIVE)
     fw.explore('recursive-constraints', harness_recursive, [{'name': n} for n in RECURSIVE], fuel=60_000_000)
+    fw.bounds['environment'] = 'real main() with one environment variable whose name / value is one fully symbolic byte (0x01..0xff)'
+    fw.explore('environment', harness_environment, [{'where': 'value'}, {'where': 'name'}], fuel=200_000_000)
     for v in fw.violations:
+        if v['case'].get('kind') == 'cli-env-bytes':
+            import tempfile
+            with tempfile.TemporaryDirectory(prefix='ucg-verif-c04-') as d:
+                open(os.path.join(d, 'conf.ucg'), 'w').write('let a = 1;\n')
+                bb = bytes([v['case']['byte']])
+                envb = {b'HOME': d.encode(), (bb if v['case']['where'] == 'name' else b'AA'): (b'v' if v['case']['where'] == 'name' else bb)}
+                r = fw.native().cli(['build', 'conf.ucg'], d, env=envb, clear_env=True)
+            v['reproduced'] = r['rc'] == 101 or 'panicked' in r['stderr']
+            v['native'] = {'rc': r['rc'], 'stderr': r['stderr'][-200:]}
+            fw.replayed += 1
+            continue
         if v['case'].get('kind') == 'build-timed':
             import subprocess, tempfile, time
             with tempfile.TemporaryDirectory(prefix='ucg-verif-c04-') as d:
